@@ -98,7 +98,7 @@ static void c07_case(const vector<Tpl> &T, int a, int b, int n, int code, int sz
             // there and overlap in the other axis) -- the final, non-reporting projection (setPosition -> moveTo) let non-overlap win
             if (overlap && (mode == 0 || mode == 1)) { const string &nm = T[used[k]].name; bool cx = nm.find(" X ") != string::npos || nm.find("FixedRelative") == 0, cy = nm.find(" Y ") != string::npos || nm.find("FixedRelative") == 0; bool tight = false;
                 for (int i = 0; i <= T[used[k]].maxNode; i++) for (int j = i + 1; j <= T[used[k]].maxNode; j++) { double dx = fabs(x[i] - x[j]), dy = fabs(y[i] - y[j]), sx = (w0[i] + w0[j]) / 2, sy = (h0[i] + h0[j]) / 2;
-                    if (cx && fabs(dx - sx) < 1e-6 && dy < sy - 1e-6) tight = true; if (cy && fabs(dy - sy) < 1e-6 && dx < sx - 1e-6) tight = true; }
+                    if (cx && fabs(dx - sx) < 1e-6) tight = true; if (cy && fabs(dy - sy) < 1e-6) tight = true; }   // exact abutment along the restricted axis (the generated constraint may stem from an earlier iteration in which the two still overlapped in the other axis)
                 if (tight) kc.push_back("nonoverlap_tight_between_constrained_nodes"); }
             if (excused) ctx.count("violated_and_reported");
             else ctx.violation(anyRep ? "violated_other_constraint_reported" : "violated_without_report", kc, desc, mcx::fmt("[%s] violated by %g; reported %zu+%zu (%s); final ", T[used[k]].name.c_str(), v, ux.size(), uy.size(), who.c_str()) + pos);
